@@ -118,7 +118,7 @@ fn run(out: &mut Out, sched: &Value, keys: &[Keypair], peers: &[PeerId]) {
                             .find(|(pp, nn, _)| *pp == peers[p] && nn == NS[n])
                             .map(|x| x.2);
                         if let Some(id) = id {
-                            timers.push(Timer { id, deadline: now + eff, fired: false });
+                            timers.push(Timer { id, deadline: now + rttl as u64, fired: false });
                         }
                     }
                     evs.push(json!({"e": "reg", "p": p, "n": n, "ttl": eff, "seq": seq, "res": res, "rttl": rttl, "evok": evok}));
